@@ -342,36 +342,46 @@ MUTATORS = {"remove", "discard", "pop", "popitem", "add", "append", "appendleft"
 
 
 def rule_shared_state_atomic(ctx, rid, engine):
-    """Check-then-act on state shared between the workers (role-free form of A2).  In every closure of the engine - the code the
-    worker threads execute - a variable of the engine's scope (or a local alias of one of its elements, `x = shared[k]`) that the
-    closure *modifies* (augmented / subscript assignment, nonlocal rebinding to a computed value, a mutating container method) must be
-    modified, and tested, inside a lock region; a test that reads such state lies in the same lock region as the modification that
-    precedes it.  Flags that are only ever assigned constants (the stop flag) and containers that are only read are exempt."""
+    """Check-then-act on state shared between the workers (role-free form of A2).  In the code the worker threads execute - every
+    closure of the engine, and every method of a package class reachable from them - state that outlives the invocation (a variable
+    of the engine's scope, an attribute of `self`, or a local alias of one of their elements, `x = shared[k]`) and that the function
+    *modifies* (augmented / subscript assignment, rebinding to a computed value, a mutating container method) must be modified inside
+    a lock region, and every other read of it in that function lies in the lock region of a modification: a value read after the lock
+    was released may already have been changed again by another worker (two workers both see "zero" and both enqueue the successor).
+    Flags that are only ever assigned constants (the stop flag) and containers that are only read are exempt."""
     m = ctx.model
     e = engine
     n_sites = 0
-    for cb in e.all_nested():
-        if isinstance(cb.node, ast.Lambda):
-            continue
+    closures = [f for f in e.all_nested() if not isinstance(f.node, ast.Lambda)]
+    # objects the engine constructs for the run are shared by all its workers: their methods are worker code operating on shared state
+    built = set()
+    for c_ in e.own_calls():
+        for o_ in m.callee_origins(e, c_):
+            if o_[0] == "class" and hasattr(o_[1], "repo_mro"):
+                built |= set(o_[1].repo_mro())
+    methods = [f for f in m.reachable(closures, kinds=("call",)) if f.cls is not None and f.cls in built and f not in closures
+               and f.name != "__init__" and f.pos_params]
+    for cb in closures + sorted(methods, key=lambda f_: f_.qualname):
         mod = cb.module
         locks = lock_withs(m, cb)
-        shared = {n for n in names_free_in(m, cb, e)}
+        if cb.cls is not None:
+            # locks held as attributes of self
+            for n in cb.own_nodes():
+                if isinstance(n, ast.With):
+                    for it in n.items:
+                        if isinstance(it.context_expr, ast.Attribute) and is_name(it.context_expr.value, cb.pos_params[0]) and \
+                                "lock" in it.context_expr.attr.lower() and (n, it.context_expr) not in locks:
+                            locks.append((n, it.context_expr))
+        selfp = cb.pos_params[0] if cb.cls is not None else None
+        shared = set() if selfp else {n for n in names_free_in(m, cb, e)}
         # local aliases of elements of shared containers
         alias = {}
-        for n in cb.own_nodes():
-            if isinstance(n, ast.Assign) and len(n.targets) == 1 and isinstance(n.targets[0], ast.Name):
-                v = n.value
-                base = v
-                while isinstance(base, (ast.Subscript, ast.Attribute)):
-                    base = base.value
-                if isinstance(v, (ast.Subscript, ast.Attribute)) and isinstance(base, ast.Name) and base.id in shared:
-                    alias[n.targets[0].id] = base.id
-                elif isinstance(v, ast.Call) and isinstance(v.func, ast.Attribute) and v.func.attr in ("get", "__getitem__") \
-                        and isinstance(v.func.value, ast.Name) and v.func.value.id in shared:
-                    alias[n.targets[0].id] = v.func.value.id
 
-        def root(x):
+        def base_key(x):
+            """The piece of shared state an expression denotes or lives in: a shared variable, or `self.attr`."""
             while isinstance(x, (ast.Subscript, ast.Attribute)):
+                if selfp and isinstance(x, ast.Attribute) and is_name(x.value, selfp):
+                    return f"{selfp}.{x.attr}"
                 x = x.value
             if isinstance(x, ast.Name):
                 if x.id in alias:
@@ -379,7 +389,18 @@ def rule_shared_state_atomic(ctx, rid, engine):
                 if x.id in shared:
                     return x.id
             return None
-        mutated = {}  # shared name -> [mutation node]
+        for n in cb.own_nodes():
+            if isinstance(n, ast.Assign) and len(n.targets) == 1 and isinstance(n.targets[0], ast.Name):
+                v = n.value
+                if isinstance(v, (ast.Subscript, ast.Attribute)) and not (selfp and isinstance(v, ast.Attribute) and is_name(v.value, selfp)):
+                    k_ = base_key(v)
+                    if k_ is not None:
+                        alias[n.targets[0].id] = k_
+                elif isinstance(v, ast.Call) and isinstance(v.func, ast.Attribute) and v.func.attr in ("get", "__getitem__"):
+                    k_ = base_key(v.func.value)
+                    if k_ is not None:
+                        alias[n.targets[0].id] = k_
+        mutated = {}  # piece of shared state -> [mutation node]
         for n in cb.own_nodes():
             tg = []
             if isinstance(n, ast.AugAssign):
@@ -389,15 +410,17 @@ def rule_shared_state_atomic(ctx, rid, engine):
             elif isinstance(n, ast.Delete):
                 tg = list(n.targets)
             for t in tg:
+                const_flag = isinstance(n, ast.Assign) and isinstance(n.value, ast.Constant)
                 if isinstance(t, ast.Name):
-                    if t.id in cb.nonlocals and t.id in shared and not (isinstance(n, ast.Assign) and isinstance(n.value, ast.Constant)):
+                    if t.id in cb.nonlocals and t.id in shared and not const_flag:
                         mutated.setdefault(t.id, []).append(n)
                 elif isinstance(t, (ast.Subscript, ast.Attribute)):
-                    r_ = root(t)
-                    if r_ is not None:
+                    r_ = base_key(t)
+                    direct_attr = selfp and isinstance(t, ast.Attribute) and is_name(t.value, selfp)
+                    if r_ is not None and not (direct_attr and const_flag):
                         mutated.setdefault(r_, []).append(n)
             if isinstance(n, ast.Call) and isinstance(n.func, ast.Attribute) and n.func.attr in MUTATORS:
-                r_ = root(n.func.value)
+                r_ = base_key(n.func.value)
                 if r_ is not None and not (ext_names(m, cb, n) & (PUT | GET | {"queue.Queue.task_done"})):
                     mutated.setdefault(r_, []).append(n)
         if not mutated:
@@ -416,21 +439,35 @@ def rule_shared_state_atomic(ctx, rid, engine):
                        f"shared `{name}` is modified inside a lock region" if w is not None else
                        f"shared `{name}` is modified by the workers outside any lock region", head(stmt_of(mod, mu)))
             regions = {region(mu) for mu in muts}
+            mut_nodes = {id(x) for mu in muts for x in ast.walk(mu)}
+            seen_stmts = set()
             for n in cb.own_nodes():
-                if not isinstance(n, (ast.If, ast.While, ast.IfExp, ast.Assert)):
+                if not isinstance(n, (ast.Name, ast.Attribute)) or id(n) in mut_nodes or not isinstance(getattr(n, "ctx", None), ast.Load):
                     continue
-                reads = [x for x in ast.walk(n.test) if isinstance(x, ast.Name) and (x.id == name or alias.get(x.id) == name)]
-                if not reads:
+                if isinstance(n, ast.Name):
+                    if not (n.id == name or alias.get(n.id) == name):
+                        continue
+                elif not (selfp and is_name(n.value, selfp) and f"{selfp}.{n.attr}" == name):
                     continue
+                st = stmt_of(mod, n)
+                holder = st
+                # the statement (or the header of the compound statement) that reads it
+                if id(holder) in seen_stmts:
+                    continue
+                seen_stmts.add(id(holder))
+                if isinstance(st, ast.Assign) and len(st.targets) == 1 and isinstance(st.targets[0], ast.Name) and alias.get(st.targets[0].id) == name \
+                        and region(st) is None and all(region(u) is not None for u in cb.own_nodes()
+                                                       if isinstance(u, ast.Name) and u.id == st.targets[0].id and isinstance(u.ctx, ast.Load)):
+                    continue  # taking a reference to an element; what matters is where that reference is used
                 n_sites += 1
                 w = region(n)
                 ok = w is not None and w in regions
-                ctx.ob(rid, f"{cb.short}/{name}-tested-with-its-modification", ok, loc(cb, n),
-                       f"the test on shared `{name}` lies in the lock region of its modification (one critical section)" if ok else
-                       f"the test `{norm(n.test)[:50]}` reads shared `{name}`, which this function modifies, outside the lock region of that "
+                ctx.ob(rid, f"{cb.short}/{name}-read-with-its-modification", ok, loc(cb, n),
+                       f"shared `{name}` is read inside the lock region of its modification (one critical section)" if ok else
+                       f"`{norm(st)[:60]}` reads shared `{name}`, which this function modifies, outside the lock region of that "
                        f"modification: two workers can both modify and then both observe the same state (e.g. both find a successor ready "
-                       f"and enqueue it twice)", head(n))
-    ctx.floor(rid, "modifications / tests of worker-shared state examined", n_sites, 3)
+                       f"and enqueue it twice)", head(st))
+    ctx.floor(rid, "modifications / reads of worker-shared state examined", n_sites, 3)
 
 
 def names_free_in(m, f, scope):
